@@ -388,6 +388,9 @@ func runProperty(repo, mirror, id string, timeout int, tier string) *checkResult
 		}
 		res.funcs = append(res.funcs, key)
 		for _, o := range g.Obligs {
+			if len(o.ClauseProps) > 0 && !hasProp(o.ClauseProps, id) {
+				continue // the clause is tagged for other properties only
+			}
 			jobs = append(jobs, job{g, o})
 		}
 		for a := range g.Assumptions {
